@@ -1,11 +1,12 @@
 import Rbp.Spec.PushRules
-import Rbp.Model.Script
+import Rbp.Proofs.Tokens
 import Rbp.Generated.Consts
 /-!
 # C06 — fork coins: scripts are tokenised by Bitcoin push rules and typed by template
-Property theorems only; helper lemmas live next to the definitions they are about.
+Property theorems only; helper lemmas live in Rbp/Proofs and next to the definitions they are about.
 -/
 namespace Rbp.Props.C06
+open S SM
 
 /-- Bitcoin's push rules as a grammar: tokenising the encoding of any well-formed token list gives the list back
     (direct pushes 1–75, PUSHDATA1/2/4 with little-endian lengths read from the bytes *after* the opcode). -/
@@ -18,6 +19,47 @@ example : ∀ t ∈ [T.Tok.op 0x6a, T.Tok.push .pd1 [0x61, 0x62, 0x63, 0x64, 0x6
   intro t ht
   simp only [List.mem_cons, List.not_mem_nil, or_false] at ht
   rcases ht with rfl | rfl <;> simp [T.Tok.WF, T.Form.width]
+
+/-- the evaluator's token vector is the push-rule tokenisation with no-op opcodes dropped, empty pushes turned into
+    their opcode and push forms forgotten; it is absent exactly when a push runs past the end -/
+theorem tokens_eq_spec (s : Bytes) : tokens s = (T.tokenise s).map erase :=
+  SM.tokens_eq_spec s.length s rfl
+
+/-- type ⇔ template, a data slot accepting any non-empty push (P2PKH / P2PK / P2SH / data output / 2-of-3 multisig);
+    everything else, including every script with a push past the end, is NotRecognised -/
+theorem type_iff_template (ver : UInt8) (s : Bytes) :
+    ((evalCustom ver s).pattern = .p2pkh ↔ ∃ h, tokens s = some [.op 0x76, .op 0xa9, .data h, .op 0x88, .op 0xac]) ∧
+    ((evalCustom ver s).pattern = .p2pk ↔ ∃ k, tokens s = some [.data k, .op 0xac]) ∧
+    ((evalCustom ver s).pattern = .p2sh ↔ ∃ h, tokens s = some [.op 0xa9, .data h, .op 0x87]) ∧
+    ((∃ p, (evalCustom ver s).pattern = .opReturn p) ↔ ∃ d, tokens s = some [.op 0x6a, .data d]) ∧
+    ((evalCustom ver s).pattern = .multisig ↔ ∃ a b c, tokens s = some [.op 0x52, .data a, .data b, .data c, .op 0x53, .op 0xae]) := by
+  unfold evalCustom
+  cases tokens s with
+  | none => simp
+  | some els =>
+    simp only
+    refine ⟨?_, ?_, ?_, ?_, ?_⟩ <;> (split <;> simp_all)
+
+/-- address formulas: Base58Check(version ‖ pushed hash) for P2PKH, Base58Check(version ‖ HASH160(pushed key)) for P2PK,
+    Base58Check(0x05 ‖ pushed hash) for P2SH — and no address for every other script -/
+theorem address_formula (ver : UInt8) (s : Bytes) :
+    (∀ h, tokens s = some [.op 0x76, .op 0xa9, .data h, .op 0x88, .op 0xac] → (evalCustom ver s).address = some (A.base58check (ver :: h))) ∧
+    (∀ k, tokens s = some [.data k, .op 0xac] → (evalCustom ver s).address = some (A.base58check (ver :: A.hash160 k))) ∧
+    (∀ h, tokens s = some [.op 0xa9, .data h, .op 0x87] → (evalCustom ver s).address = some (A.base58check (5 :: h))) ∧
+    ((evalCustom ver s).pattern ≠ .p2pkh → (evalCustom ver s).pattern ≠ .p2pk → (evalCustom ver s).pattern ≠ .p2sh →
+      (evalCustom ver s).address = none) := by
+  unfold evalCustom
+  refine ⟨?_, ?_, ?_, ?_⟩
+  · intro h ht; simp [ht]
+  · intro k ht; simp [ht]
+  · intro h ht; simp [ht]
+  · cases tokens s with
+    | none => simp
+    | some els => simp only; split <;> simp
+
+/-- no input can make evaluation fail: the panic-site model of the evaluator never panics (see C14) -/
+theorem eval_total (ver : UInt8) (s : Bytes) (hlen : s.length < 2^63) : SM.eval ver s = .ok (evalCustom ver s) :=
+  eval_eq ver s hlen
 
 /-- the published version bytes of the six fork coins, and of the two Bitcoin networks -/
 def publishedVersions : List (String × Nat) :=
